@@ -136,6 +136,19 @@ func discharge(o Obligation, dir string, thorough bool, timeout time.Duration) R
 				anySat = true
 			}
 		}
+		if !anySat && !anyUnsat && !o.Sample && !o.MustFail {
+			// neither z3 decided it: cvc5 gets its turn (it is the only back end that discharges some quantified goals)
+			b := runOne(solverCVC5, dir, base, o.Query, timeout)
+			res.Attempts = append(res.Attempts, b)
+			res.Secs += b.Secs
+			if b.Verdict == "unsat" {
+				anyUnsat = true
+				res.Solver = b.Solver
+			}
+			if b.Verdict == "sat" {
+				anySat = true
+			}
+		}
 		switch {
 		case anySat:
 			res.Verdict = "sat"
